@@ -20,11 +20,14 @@ def parseDecl (t : String) : Option ChanDecl :=
   | f :: d :: k :: x :: rest =>
     let fut? := if f == 'S' then some false else if f == 'F' then some true else none
     let gw? := if d == 'W' then some true else if d == 'R' then some false else none
-    let kind? := if k == 'b' then some PKind.canon else if k == 'r' then some .lifted else if k == 's' then some .lists else none
+    let kind? : Option (PKind × Nat) :=
+      if k == 'b' then some (.canon, 1) else if k == 'h' then some (.canon, 2) else if k == 'w' then some (.canon, 4)
+      else if k == 'd' then some (.canon, 8) else if k == 't' then some (.canon, 8)
+      else if k == 'r' then some (.lifted, 8) else if k == 's' then some (.lists, 16) else none
     let cx? := if '0' ≤ x ∧ x ≤ '4' then some (x.toNat - 48) else none
     match fut?, gw?, kind?, cx?, rest with
-    | some fut, some gw, some kind, some cx, [] => some ⟨fut, gw, kind, cx, false⟩
-    | some fut, some gw, some kind, some cx, ['A'] => if fut || gw then none else some ⟨fut, gw, kind, cx, true⟩
+    | some fut, some gw, some (kind, esize), some cx, [] => if fut && !kind.lowers then none else some ⟨fut, gw, kind, cx, false, esize⟩
+    | some fut, some gw, some (kind, esize), some cx, ['A'] => if fut || gw then none else some ⟨fut, gw, kind, cx, true, esize⟩
     | _, _, _, _, _ => none
   | _ => none
 
@@ -78,6 +81,9 @@ def chanVerdict (sc : CScript) (impl : List Ev) : List String :=
   let ended := !(impl.any fun e => e == .panic || e == .abort)
   let perChan := (sc.decls.mapIdx fun c d => (c, d)).flatMap fun (c, d) =>
     let k : ChanSpec.CSpec := ⟨c, d.fut, d.gw, d.kind.lowers, d.kind == .lists⟩
+    (match ChanSpec.ptrRun k d.esize {} impl with
+     | .error cls => [s!"{cls}@c{c}"]
+     | .ok _ => []) ++
     match ChanSpec.run k {} impl with
     | .error cls => [s!"{cls}@c{c}"]
     | .ok m =>
